@@ -383,7 +383,7 @@ def ecdsaRecover (sig msg : Bytes) : Option Bytes :=
         | none => none
         | some der => if verifyEcdsaKey E Q der msg false then some result else none
 
-/-- the search loop of `ecdsa_sign_recoverable` -/
+/-- the search loop of `ecdsa_sign_recoverable` (before fix `c08-signrec`) -/
 def recidSearch (sig msg pub : Bytes) : List Nat → Option Bytes
   | [] => none                                     -- `raise ValueError("Failed to sign")`
   | i :: rest =>
@@ -391,6 +391,9 @@ def recidSearch (sig msg pub : Bytes) : List Nat → Option Bytes
     | none => none                                 -- an exception inside the loop propagates
     | some q => if q = pub then some (sig ++ [UInt8.ofNat i]) else recidSearch sig msg pub rest
 
+/-- `ecdsa_sign_recoverable` BEFORE fix `c08-signrec` (the id is searched by trial recovery). Kept under its name
+    because the theorems of Props/C08X (`…_partial`, the witnesses of the excluded region) are stated about it; the
+    code as it is now is `ecdsaSignRecoverableDirect` below — that is what the driver evaluates. -/
 def ecdsaSignRecoverable (fuel : Nat) (msg secret : Bytes) : Option Bytes :=
   match ecdsaSign E H fuel msg secret none with
   | none => none
@@ -398,6 +401,27 @@ def ecdsaSignRecoverable (fuel : Nat) (msg secret : Bytes) : Option Bytes :=
     match ecPubkeyCreate E secret with
     | none => none
     | some pub => recidSearch E sig msg pub [0, 1, 2, 3]
+
+/-- `ecdsa_sign_recoverable(msg, secret)` after fix `c08-signrec`: `sig = ecdsa_sign(msg, secret)`, then the
+    recovery id from the nonce point `R = kG`, `k = deterministic_k(d, z)`:
+    `recid = (R[1] & 1) | (2 if R[0] >= n else 0)`; `r = R[0] % n`; `s = (modinv(k, n) * (z + d * r)) % n`;
+    `if s > n // 2: recid ^= 1`. (`R` infinite: `R[1]` on None raises.) -/
+def ecdsaSignRecoverableDirect (fuel : Nat) (msg secret : Bytes) : Option Bytes :=
+  match ecdsaSign E H fuel msg secret none with
+  | none => none
+  | some sig =>
+    let d := ofBe secret
+    let z := ofBe msg
+    match deterministicK H fuel E.n d z none with
+    | none => none
+    | some k =>
+      match E.xy (E.mul k E.g) with
+      | none => none
+      | some (rx, ry) =>
+        let recid := (ry % 2) ||| (if rx ≥ E.n then 2 else 0)
+        let r := rx % E.n
+        let s := (E.invN k * (z + d * r)) % E.n
+        some (sig ++ [UInt8.ofNat (if s > E.n / 2 then recid ^^^ 1 else recid)])
 
 /-! ### ec.py -/
 
